@@ -2,10 +2,16 @@
 HARNESSES = [
     COMMON["aead"]("gcm12_seal", 2, [(17, "quick"), (40, "quick"), (16, "quick")]),
     COMMON["aead"]("gcm13_seal", 4, [(1, "quick"), (40, "quick")]),
+    dict(name="dtls_finished_epoch", src="dtls_finished_epoch.c", checks=[],
+         units=["matrixssl/dtls.c", "matrixssl/hsNegotiateVersion.c"],
+         functions=["processFinished", "incrTwoByte", "zeroSixByte"], sources=["matrixssl/sslEncode.c", "matrixssl/dtls.c"],
+         assumptions=["dtls_finished_epoch: session state arbitrary (RI-ssl) with epoch <= largestEpoch < 0xFFFF; retransmit flag arbitrary; sslActivateWriteCipher / sslSnapshotHSHash are stubs with arbitrary results"],
+         unwind=20,
+         cases=[dict(name="dtls12", defs={"VF_VER": "(v_dtls_1_2|v_tls_negotiated)"})]),
 ]
 PROPERTY = dict(level='model_checking',
-    claim='Two consecutive seals under one key use different nonces and the write sequence number increases by exactly one per sealed record (TLS 1.2 GCM explicit nonce = sequence number; TLS 1.3 nonce = IV xor sequence number).',
+    claim='Two consecutive seals under one key use different nonces and the write sequence number increases by exactly one per sealed record (TLS 1.2 GCM explicit nonce = sequence number; TLS 1.3 nonce = IV xor sequence number). A DTLS Finished flight (first or retransmitted) always moves to an epoch never used for sending before and restarts the record sequence number.',
     bounds='record lengths enumerated; arbitrary IV and sequence number below 2^64-1',
-    outside='explicit CBC IV generation, DTLS epoch/rsn handling in encryptRecord, flight retransmission, key-change resets',
+    outside='explicit CBC IV generation, DTLS rsn increments in encryptRecord, TLS 1.3 key-phase changes (early/handshake/application), epoch exhaustion after 65535 handshakes',
     explanation='Two consecutive seals under one key use different nonces and the write sequence number increases by exactly one per sealed record (TLS 1.2 GCM explicit nonce = sequence number; TLS 1.3 nonce = IV xor sequence number).',
     assumptions=[])
